@@ -152,9 +152,9 @@ def setRemoved (s : State) (e : Nat) : Option State := do
 def pushCore (s : State) : Option State := do
   let e := s.size
   let s := s.setElem e Elem.blank
-  -- if l.len == 0 { l.wg.Done(); close(l.waitCh) }
-  let s ← (if s.len = 0 then (if s.closed then none else some { s with closed := true }) else some s)
-  let s := { s with len := s.len + 1 }
+  -- if l.len == 0 { l.wg.Done(); close(l.waitCh) };  l.len++
+  if s.len = 0 ∧ s.closed = true then none else
+  let s := { s with closed := if s.len = 0 then true else s.closed, len := s.len + 1 }
   let s ← (match s.tail with
     | none => some { s with head := some e, tail := some e }
     | some t => do
@@ -167,9 +167,10 @@ def pushCore (s : State) : Option State := do
 def removeCore (s : State) (e : Nat) : Option State := do
   let prev := (s.elems e).prev
   let next := (s.elems e).next
-  -- if l.len == 1 { l.wg = waitGroup1(); l.waitCh = make(chan struct{}) }
-  let s := if s.len = 1 then { s with closed := false, stale := s.stale ++ [s.closed] } else s
-  let s := { s with len := s.len - 1 }
+  -- if l.len == 1 { l.wg = waitGroup1(); l.waitCh = make(chan struct{}) };  l.len--
+  let s := { s with closed := if s.len = 1 then false else s.closed,
+                    stale := if s.len = 1 then s.stale ++ [s.closed] else s.stale,
+                    len := s.len - 1 }
   let s ← (match prev with
     | none => some { s with head := next }
     | some p => setNext s p next)
